@@ -18,7 +18,9 @@
 (*                 sets (the ordset empty-key defect repaired in df105d1)     *)
 (*   EarlyClean  - committed writers are forgotten at commit                  *)
 EXTENDS Integers, Sequences, FiniteSets, TLC
-CONSTANTS Trans, Keys, MaxOps, NoDupRead, LoseMinKey, EarlyClean
+CONSTANTS Trans, Keys, MaxOps, NoDupRead, LoseMinKey, EarlyClean,
+          WithAborts    \* TRUE: also explore aborts by the client (Rollback), by the checker tick (MaxAge)
+                        \* and by a table becoming exclusive (index build / table load)
 \* Keys is a set of integers; db maps key -> 0 (absent) or writer id (>0)
 VARIABLES db, seq, st, start, end, snap, wr, q, nops,
           actv, cmtd, reads, outs, dels, hasUpd, rc, failed,
@@ -215,10 +217,27 @@ DCommit(t) ==
                         /\ dels' = [u \in Trans |-> IF u \in cmtd \ keep \/ u = t THEN {} ELSE dels[u]]
   /\ UNCHANGED <<start, snap, wr, nops, hasUpd, rc, failed, obs>>
 
-Next == \E t \in Trans :
+\* ---- aborts (checkco.go ckAbort / check.go tick / AddExclusive): the checker drops the
+\* transaction at any moment; messages still queued for it are ignored when dispatched
+\* (t \notin actv), a later commit request is answered with failure
+DAbort(t) ==
+  /\ WithAborts /\ t \in actv
+  /\ AbortSet({t})
+  /\ UNCHANGED <<db, seq, st, start, end, snap, wr, q, nops, cmtd, hasUpd, rc, obs, bad>>
+
+\* AddExclusive(table): every active transaction that has written to the table is aborted
+DExclusive ==
+  /\ WithAborts
+  /\ LET ws == {u \in actv : outs[u] # {} \/ dels[u] # {}} IN
+       /\ ws # {}
+       /\ AbortSet(ws)
+  /\ UNCHANGED <<db, seq, st, start, end, snap, wr, q, nops, cmtd, hasUpd, rc, obs, bad>>
+
+Next == \/ \E t \in Trans :
           \/ Begin(t) \/ ClientFail(t) \/ CScan(t) \/ CCommit(t)
-          \/ DRead(t) \/ DWrite(t) \/ DCommit(t)
+          \/ DRead(t) \/ DWrite(t) \/ DCommit(t) \/ DAbort(t)
           \/ \E k \in Keys : CLookup(t, k) \/ CDelete(t, k) \/ COutput(t, k, 1)
+        \/ DExclusive
 
 Spec == Init /\ [][Next]_vars
 
@@ -232,6 +251,10 @@ AtomicCommit == [][db' # db => \E t \in Trans :
                       /\ st[t] = "committing" /\ st'[t] = "committed"
                       /\ db' = ViewOn(db, wr[t])]_vars
 OutcomeTruthful == \A t \in Trans : st[t] = "aborted" => end[t] = INF
+(* an aborted transaction leaves no visible change: whatever is in db was written by a
+   transaction that is reported committed *)
+NoAbortedWrites == \A k \in Keys : db[k] # 0 =>
+                      \E t \in Trans : st[t] = "committed" /\ wr[t][k] = db[k]
 (* checker bookkeeping: a committed writer stays known while an active transaction
    that started before its end could still conflict with it *)
 RetainsOverlapping == EarlyClean \/ \A u \in Trans :
